@@ -31,6 +31,15 @@ def flat_stage(rng):
 def cases(tier, rng):
     yield {'kind': 'mux', 'term': [['batch', 1]], 'items': [1, 2, 3]}
     yield {'kind': 'mux', 'term': [['roll', 3, 2, [['count', True]]]], 'items': [1, 2, 3, 4, 5]}
+    # None / falsy items at every position relative to a batch, window, lag or pad boundary (per-item timing must not depend on values)
+    for (k, r) in ((2, 0), (2, 1), (3, 0), (3, 1), (3, 2), (1, 0)):
+        pre = ['map', ['none_if_mod', k, r]]
+        for st_ in (['batch', 1], ['batch', 2], ['batch', 3], ['lag', 1], ['lag', 2], ['pad_start', 1, None], ['pad_end', 2, None],
+                    ['last'], ['first'], ['take', 2], ['to_list'], ['start_with', [None]]):
+            yield {'kind': 'mux', 'term': [pre, st_], 'items': [1, 2, 3, 4, 5, 6, 7]}
+        yield {'kind': 'mux', 'term': [['group_by', ['mod', 2], [pre, ['batch', 2]]]], 'items': [1, 2, 3, 4, 5, 6, 7, 8, 9]}
+        yield {'kind': 'mux', 'term': [pre, ['roll', 2, 1, [['to_list']]]], 'items': [1, 2, 3, 4, 5]}
+        yield {'kind': 'plain', 'term': [pre, ['batch', 2]], 'items': [1, 2, 3, 4, 5, 6, 7]}
     n = {'quick': 1500, 'thorough': 12000, 'search': 600}[tier]
     for _ in range(n):
         r = rng.random()
